@@ -193,7 +193,12 @@ func (c18) Run(e *Env) {
 	checked := 0
 	var tick time.Time
 	everStalled := false
+	var prevReading time.Time
+	stallSincePrev, quiet := false, 0
 	check := func() {
+		if proc.gate != nil && proc.gate.Len() > 0 {
+			stallSincePrev = true
+		}
 		if proc.gate != nil && proc.gate.Len() > 0 {
 			if !everStalled {
 				// flushes recorded so far ran before any stall could delay them; later ones may be late
@@ -231,6 +236,17 @@ func (c18) Run(e *Env) {
 			if !mockRegime && !everStalled && !tick.Equal(f.reading) {
 				e.Failf("C18/flush-not-at-its-time", "flush %d is for time %v but ran when the clock read %v (no stall, exact timers)", checked+1, tick.Format(time.RFC3339Nano), f.reading.Format(time.RFC3339Nano))
 			}
+			// a consumer that keeps up gets every tick when it is due: after three flushes in a row at
+			// consecutive boundaries with no stall in between, the flush running at a boundary is for it
+			if !mockRegime && onGrid(f.reading, interval, offset) && f.reading.Sub(prevReading) == interval && !stallSincePrev {
+				quiet++
+			} else {
+				quiet = 0
+			}
+			if quiet >= 3 && !tick.Equal(f.reading) {
+				e.Failf("C18/flush-for-a-stale-tick", "flush %d ran at the boundary %v with a consumer that has kept up for %d flushes, but the elapsed times handed to the aggregators add up to %v", checked+1, f.reading.Format(time.RFC3339Nano), quiet, tick.Format(time.RFC3339Nano))
+			}
+			prevReading, stallSincePrev = f.reading, false
 			e.Event("flush %d elapsed=%v", checked+1, f.interval)
 		}
 		// promptness of the first flush: once the clock has reached the first boundary it must have happened
